@@ -11,6 +11,7 @@ Require Import V.Oracle.C02Oracle.
 Require Import V.Proofs.TailArith.
 Require Import V.Proofs.FragArith.
 Require Import V.Proofs.AppenderInv.
+Require Import V.Proofs.AppenderInv2.
 Require Import V.Proofs.C02Proofs.
 Require Import V.Proofs.C02Quiescent.
 Open Scope Z_scope.
@@ -28,6 +29,14 @@ Theorem C02_invariant : forall c, wf_cfg c ->
   forall s th gh, reach c s th gh -> AppInv c s gh (pubs th).
 Proof. exact reach_inv. Qed.
 Print Assumptions C02_invariant.
+
+(* second layer (AppenderInv2.AppInv2): nobody panics, every accepted offer has a claim, every refusal is a retry or
+   back-pressure answer, a rotation in progress / a tripped active term always has a thread that will complete the
+   rotation, no claim exists beyond the active term, positions of one publisher increase in offer order *)
+Theorem C02_invariant2 : forall c, wf_cfg c ->
+  forall s th gh, reach c s th gh -> AppInv2 c s gh (pubs th).
+Proof. exact reach_inv2. Qed.
+Print Assumptions C02_invariant2.
 
 (* the same for the executable run over a schedule with crash points, as evaluated in the correspondence check *)
 Theorem C02_invariant_run : forall c, wf_cfg c ->
@@ -81,6 +90,43 @@ Theorem C02_claim_result : forall c, wf_cfg c -> forall s gh P g e,
        nth (e_j e) (p_res l) Panic = (if e_b e <=? TL c then Ok (g * TL c + e_b e) else Err AdminAction)).
 Proof. intros c W. exact (claim_result c). Qed.
 Print Assumptions C02_claim_result.
+
+(* an accepted offer has its own claim inside a term; the returned position is the end of the caller's own message *)
+Theorem C02_accepted_has_claim : forall c, wf_cfg c -> forall s gh P t l j pos,
+  AppInv c s gh P -> AppInv2 c s gh P -> P t = Some l -> nth_error (p_res l) j = Some (Ok pos) ->
+  exists g e, In e (g_claims gh g) /\ e_t e = t /\ e_j e = j /\ e_b e <= TL c /\ pos = g * TL c + e_b e.
+Proof. intros c _. exact (accepted_has_claim c). Qed.
+Print Assumptions C02_accepted_has_claim.
+
+(* each publisher's accepted positions increase in its offer order; positions of different claims are distinct *)
+Theorem C02_positions_increasing : forall c, wf_cfg c -> forall s gh P t l j j' pos pos',
+  AppInv c s gh P -> AppInv2 c s gh P -> P t = Some l -> (j < j')%nat ->
+  nth_error (p_res l) j = Some (Ok pos) -> nth_error (p_res l) j' = Some (Ok pos') -> pos < pos'.
+Proof. intros c _. exact (positions_increasing c). Qed.
+Print Assumptions C02_positions_increasing.
+
+Theorem C02_positions_distinct : forall c, wf_cfg c -> forall s gh P g g' e e',
+  AppInv c s gh P -> In e (g_claims gh g) -> In e' (g_claims gh g') -> e_b e <= TL c -> e_b e' <= TL c ->
+  g * TL c + e_b e = g' * TL c + e_b e' -> g = g' /\ e = e'.
+Proof. exact positions_distinct. Qed.
+Print Assumptions C02_positions_distinct.
+
+(* every answer is a position, AdminAction (retry), back pressure / not connected, or an argument error; no panic *)
+Theorem C02_answers : forall c s gh P t l r,
+  AppInv2 c s gh P -> P t = Some l -> (In r (p_res l) -> res_okP r) /\ p_pc l <> PPanicked.
+Proof. exact answers_ok. Qed.
+Print Assumptions C02_answers.
+
+(* at quiescence: not mid-rotation, the active term is not tripped, the filled (tripped) generations are exactly those
+   below the active term count - every filled term was rotated exactly once - and nothing was claimed beyond *)
+Theorem C02_quiescent_rotation : forall c, wf_cfg c -> forall s gh P,
+  AppInv c s gh P -> AppInv2 c s gh P -> quiescent P ->
+  tg c s ((sh_count s + 1) mod 3) = sh_count s - 2 /\
+  toff s (sh_count s mod 3) <= TL c /\
+  (forall g, c_n0 c <= g -> (tripped c gh g <-> g < sh_count s)) /\
+  (forall g, sh_count s < g -> g_claims gh g = []).
+Proof. exact quiescent_rotation. Qed.
+Print Assumptions C02_quiescent_rotation.
 
 (* the known class is inhabited: publisher 0 parked between the tail read and its get_and_add while publisher 1
    fills three terms panics and the property's predicate fails on that run *)
